@@ -1,3 +1,6 @@
+// c08.go: the driver. Generators of well-formed proposals and of one mutant per validity condition,
+// the oracle written from the property text, rendering of inputs and observations as terms of
+// coq/Model/Open.v and coq/Run/Compare_C08.v.
 package c08
 
 import (
@@ -531,7 +534,9 @@ func (d *driver) parentAlloc() *channel.Allocation {
 	})
 }
 
-func (d *driver) opts(p *party, withApp bool) []client.ProposalOpts { return d.optsApp(p, withApp, true) }
+func (d *driver) opts(p *party, withApp bool) []client.ProposalOpts {
+	return d.optsApp(p, withApp, true)
+}
 
 // optsApp: a channel that will be the parent of sub-channels must not run the payment app (funding
 // a sub-channel debits both participants, which the payment app refuses).
@@ -1161,8 +1166,6 @@ func (d *driver) parentlessMutants() []mutant {
 
 var outcomeTerm = map[string]string{"called": "HandlerCalled", "dropped": "Dropped", "panic": "Panic", "timeout": "Panic"}
 
-func shortClass(name string) string { return name }
-
 func (d *driver) deliverAll(ms []mutant, stage string) {
 	for _, m := range ms {
 		ctx := d.snap(d.A)
@@ -1344,7 +1347,9 @@ func (d *driver) acceptCase(name string, p client.ChannelProposal, acc client.Ch
 	verdict := "VdErr"
 	select {
 	case r := <-resc:
-		if r.err == nil {
+		if r.panicked {
+			verdict = "VdPanic"
+		} else if r.err == nil {
 			verdict = "VdOk"
 		}
 	case <-time.After(opTimeout):
@@ -1456,7 +1461,7 @@ func Run(seed int64, tier, out string) {
 	defer runtime.GOMAXPROCS(runtime.GOMAXPROCS(0))
 	n := 2
 	if tier == "thorough" {
-		n = 24
+		n = 16
 	}
 	for k := 0; k < n; k++ {
 		d.world(k)
